@@ -45,7 +45,16 @@ METRICS = ['SNR-bandwidth', 'SNR-0.1nm', 'OSNR-bandwidth', 'OSNR-0.1nm', 'lowest
 
 
 # ------------------------------------------------------------------ equipment variants
+_VAR = []
+
+
 def eqpt_variants():
+    if not _VAR:
+        _VAR.extend(_eqpt_variants())
+    return _VAR
+
+
+def _eqpt_variants():
     """a fixed family of equipment libraries: margins that are / are not exactly representable, penalties on some modes
     (so that the three penalty metrics are numbers, 'Infinity' or 'not evaluated'), raised thresholds (blocking)"""
     base = json.load(open(os.path.join(common.REPO, 'gnpy', 'example-data', 'eqpt_config.json')))
@@ -202,7 +211,7 @@ def gen_batch(rng, topo, k):
             spacing = rng.choice([25e9, 37.5e9, 50e9, 62.5e9, 75e9, 75e9, 100e9])     # 25 GHz: no baud rate fits
             cands = [m for m in modes[ttype] if m[1] <= spacing]
             br = max([m[2] for m in cands], default=100e9)
-        nch = rng.choice([None, 3, 5, 8, 8, 12, 16, 20])
+        nch = rng.choice([None] + [3, 5, 8, 8, 12, 16, 20] * 2)
         power = rng.choice([None, None, 1e-3, 2e-3, 0.5e-3, 0.0005011872336272725, 1.3e-3])
         nb = rng.choice([1, 1, 1, 2, 2, 3, 5])
         bw = rng.choice([br * nb, br * nb, br * nb - 50e9 if br * nb > 50e9 else br * nb, 37.5e9 * nb])
@@ -212,7 +221,8 @@ def gen_batch(rng, topo, k):
         if x < 0.45:
             slots = [{'N': None, 'M': None}]
         elif x < 0.7:
-            slots = [{'N': rng.choice([None, 8 * rng.randint(-20, 20)]), 'M': pcm * need}]
+            slots = [{'N': rng.choice([None, 8 * rng.randint(-20, 20)]) if mode is None else 8 * rng.randint(-20, 20),
+                      'M': pcm * need}]
         elif x < 0.9:
             # multi-slot: enough room in total, fixed or free centres
             parts = []
@@ -220,7 +230,7 @@ def gen_batch(rng, topo, k):
             n0 = 8 * rng.randint(-25, 10)
             while left > 0:
                 c = rng.randint(1, left)
-                parts.append({'N': n0 + pcm * c if rng.random() < 0.7 else None, 'M': pcm * c})
+                parts.append({'N': n0 + pcm * c if rng.random() < 0.7 or mode is not None else None, 'M': pcm * c})
                 n0 += 2 * pcm * c + rng.choice([0, 4, 8])
                 left -= c
             if all(p['N'] is None for p in parts) and len(parts) > 1:
@@ -228,7 +238,8 @@ def gen_batch(rng, topo, k):
             slots = parts
         else:
             # deliberately short M: rejected at load time when the mode is fixed, blocked later when it is free
-            slots = [{'N': None, 'M': pcm * max(1, need - 1)}]
+            slots = [{'N': None if mode is None else 8 * rng.randint(-20, 20),
+                      'M': pcm * max(1, need - (1 if mode is None or rng.random() < 0.2 else 0))}]
         inc = None
         y = rng.random()
         if y < 0.12:
@@ -237,7 +248,7 @@ def gen_batch(rng, topo, k):
                 inc = [(f'roadm {rng.choice(other)}', rng.choice(['STRICT', 'STRICT', 'LOOSE']))]
         reqs.append(mk_request(i, s, t, ttype, mode, spacing, nch, power, bw, slots, rng.random() < 0.35, inc))
     sync = []
-    if len(reqs) >= 2 and rng.random() < 0.2:
+    if len(reqs) >= 2 and rng.random() < 0.12:
         a, b = rng.sample(range(len(reqs)), 2)
         sync.append({'synchronization-id': 'x', 'svec': {'relaxable': False, 'disjointness': 'node link',
                                                          'request-id-number': [str(a), str(b)]}})
@@ -448,16 +459,26 @@ def ozl(l):
     return 'None' if l is None else '(Some ' + listlit([zlit(x) for x in l]) + ')'
 
 
+def qlist_cd(vals):
+    """exact values of the floats, written over one common (power of two) denominator:  QA den [n1; n2; ...]"""
+    fr = [Fraction(v) for v in vals]
+    den = max([f.denominator for f in fr], default=1)
+    return f'(QA {den} ' + listlit([zlit(f.numerator * (den // f.denominator)) for f in fr]) + ')'
+
+
 def pen_lit(p):
     if p is None:
         return 'None'
-    return '(Some ' + listlit(['PInf' if math.isinf(x) else f'(Fin {qlit(x)})' for x in p]) + ')'
+    fr = [None if math.isinf(x) else Fraction(x) for x in p]
+    den = max([f.denominator for f in fr if f is not None], default=1)
+    return (f'(Some (FA {den} ' + listlit(['None' if f is None else f'(Some {zlit(f.numerator * (den // f.denominator))})'
+                                          for f in fr]) + '))')
 
 
 def rx_lit(f):
     if f is None:
         return 'None'
-    return ('(Some (mkRx ' + ' '.join(listlit([qlit(x) for x in f[k]]) for k in ('snr', 'snr01', 'osnr', 'osnr01'))
+    return ('(Some (mkRx ' + ' '.join(qlist_cd(f[k]) for k in ('snr', 'snr01', 'osnr', 'osnr01'))
             + ' ' + ' '.join(pen_lit(f[k]) for k in ('pdl', 'cd', 'pmd')) + '))')
 
 
@@ -468,7 +489,13 @@ def obs_lit(o):
             f'{qdec(o["power"])} {qdec(o["bw"])})')
 
 
+def _is_int(x):
+    return isinstance(x, int) and not isinstance(x, bool)
+
+
 def jlit(x):
+    """Gallina literal of a JSON value.  Objects of the four shapes that make up a response are written with the
+    macros JH / JL / JT / JM of Run/C19.v (which expand to the same term) after an exact check of keys and order."""
     if x is None:
         return 'JNull'
     if isinstance(x, bool):
@@ -480,6 +507,26 @@ def jlit(x):
     if isinstance(x, list):
         return '(JArr ' + listlit([jlit(v) for v in x]) + ')'
     if isinstance(x, dict):
+        keys = list(x.keys())
+        if keys == ['path-route-object'] and isinstance(x['path-route-object'], dict):
+            inner = x['path-route-object']
+            ik = list(inner.keys())
+            if len(ik) == 2 and ik[0] == 'index' and _is_int(inner['index']):
+                i, v = inner['index'], inner[ik[1]]
+                if ik[1] == 'num-unnum-hop' and isinstance(v, dict) and list(v.keys()) == ['node-id', 'link-tp-id'] \
+                        and all(isinstance(u, str) for u in v.values()):
+                    return f'(JH {zlit(i)} {strlit(v["node-id"])} {strlit(v["link-tp-id"])})'
+                if ik[1] == 'label-hop' and isinstance(v, list) and all(
+                        isinstance(e, dict) and list(e.keys()) == ['N', 'M'] and _is_int(e['N']) and _is_int(e['M'])
+                        for e in v):
+                    return f'(JL {zlit(i)} ' + listlit([f'({zlit(e["N"])}, {zlit(e["M"])})' for e in v]) + ')'
+                if ik[1] == 'transponder' and isinstance(v, dict) and \
+                        list(v.keys()) == ['transponder-type', 'transponder-mode'] and \
+                        isinstance(v['transponder-type'], str) and \
+                        (v['transponder-mode'] is None or isinstance(v['transponder-mode'], str)):
+                    return f'(JT {zlit(i)} {strlit(v["transponder-type"])} {ostr(v["transponder-mode"])})'
+        if keys == ['metric-type', 'accumulative-value'] and isinstance(x['metric-type'], str):
+            return f'(JM {strlit(x["metric-type"])} {jlit(x["accumulative-value"])})'
         return '(JObj ' + listlit([f'({strlit(k)}, {jlit(v)})' for k, v in x.items()]) + ')'
     raise ValueError(type(x))
 
@@ -854,10 +901,8 @@ def run(ctx):
             if has_bad_number(resp) or fig_ties(o['fwd']) or fig_ties(o['rev']):
                 ctx.count('skipped_tie_or_nonfinite')
                 continue
-            add('resp', f'check_case {obs_lit(o)} {jlit(resp)}', sc, o['id'], o, resp)
-            if drv['csv'] is not None:
-                add('csv', f'csv_s eqp{k} margin{k} {qlit(pdbm_of(resp))} {jlit(resp)}', sc, o['id'], resp,
-                    drv['csv'][j], csv_skips(resp, k))
+            add('resp', f'check_all {obs_lit(o)} {jlit(resp)} eqp{k} margin{k} {qlit(pdbm_of(resp))}', sc, o['id'], o, resp,
+                drv['csv'][j] if drv['csv'] is not None else None, csv_skips(resp, k))
         drng = random.Random(c.get('direct_seed', 0))
         for (o, resp, exc, row) in direct_variants(drng, drv):
             ctx.count('direct_' + o['kind'])
@@ -868,14 +913,14 @@ def run(ctx):
             if has_bad_number(resp) or fig_ties(o['fwd']) or fig_ties(o['rev']):
                 ctx.count('skipped_tie_or_nonfinite')
                 continue
-            add('resp', f'check_case {obs_lit(o)} {jlit(resp)}', sc, o['id'] + ' (direct ' + o['kind'] + ')', o, resp)
-            add('csv', f'csv_s eqp{k} margin{k} {qlit(pdbm_of(resp))} {jlit(resp)}', sc, o['id'], resp, row,
-                csv_skips(resp, k))
-    lines = common.coq_eval('C19', 'Prelude Model.Response Run.C19', terms, per_file=40, prelude=eqp_prelude())
+            add('resp', f'check_all {obs_lit(o)} {jlit(resp)} eqp{k} margin{k} {qlit(pdbm_of(resp))}', sc,
+                o['id'] + ' (direct ' + o['kind'] + ')', o, resp, row, csv_skips(resp, k))
+    lines = common.coq_eval('C19', 'Prelude Model.Response Run.C19', terms, per_file=25, prelude=eqp_prelude())
     for m, line in zip(meta, lines):
         kind, sc = m[0], m[1]
         if kind == 'resp':
-            _, _, rid, o, resp = m
+            _, _, rid, o, resp, row, skips = m
+            line, _, csv_line = line.partition('@@')
             v, _, g = line.partition(';')
             ctx.count('validated')
             if v != 'V:T':
@@ -891,21 +936,20 @@ def run(ctx):
                         pass
                 ctx.corr_break('corr:Response.pathresult', f'request {rid}: model response differs', sc,
                                impl=resp, model=model)
+            if row is not None:
+                ctx.count('csv_rows')
+                if skips:
+                    ctx.count('csv_fields_skipped_threshold', len(skips))
+                d = csv_compare(csv_line, row, skips)
+                if d:
+                    ctx.corr_break('corr:Response.csv_row', f'request {rid}: CSV fields differ: {d[:4]}', sc,
+                                   impl={x[0]: x[2] for x in d}, model={x[0]: x[1] for x in d})
         elif kind == 'raise':
             _, _, rid, o, exc = m
             ctx.count('raises_compared')
             if not line.startswith('G:E:') or line[4:].split(':')[0] != exc:
                 ctx.corr_break('corr:Response.pathresult', f'request {rid}: implementation raised {exc}', sc,
                                impl=exc, model=line[:200])
-        elif kind == 'csv':
-            _, _, rid, resp, row, skips = m
-            ctx.count('csv_rows')
-            if skips:
-                ctx.count('csv_fields_skipped_threshold', len(skips))
-            d = csv_compare(line, row, skips)
-            if d:
-                ctx.corr_break('corr:Response.csv_row', f'request {rid}: CSV fields differ: {d[:4]}', sc,
-                               impl={x[0]: x[2] for x in d}, model={x[0]: x[1] for x in d})
         elif kind == 'agg':
             _, _, ag = m
             left, _, right = line.partition('##')
